@@ -115,6 +115,7 @@ func SpecEofIdx(lines [][]byte, i int) int {
 //@   ensures writes-own-path: implies(fsWrites() > old(fsWrites()), lastWritePath() == filePath)
 //@   checks writes-renumbered-bytes: implies(fsWrites() > old(fsWrites()), called(processYaml) && lastWriteData() == resultOf(processYaml, 0) && lastRead() != resultOf(processYaml, 0))
 //@   checks check-verdict: implies(checkOnly && called(processYaml) && resultOf(processYaml, 1) == nil, (r != nil) == (lastRead() != resultOf(processYaml, 0)))
+//@   checks[C15,C13] only-files-matched-by-the-name-pattern-are-read-or-written: implies(called(ReadFile) || fsWrites() > old(fsWrites()), called(FindStringSubmatch) && len(resultOf(FindStringSubmatch, 0)) > 0)
 //@   checks[C13] every-test-file-is-read: implies(called(Base) && reMatch(regex.RuleIdTestFileNameRegex, resultOf(Base, 0)), called(ReadFile))
 //@   checks[C13] every-readable-test-file-is-renumbered: implies(called(ReadFile) && resultOf(ReadFile, 1) == nil, called(processYaml) && argOf(processYaml, 1) == lastRead())
 //@   checks write-iff-changed: implies(!checkOnly && called(processYaml) && resultOf(processYaml, 1) == nil && r == nil, (fsWrites() > old(fsWrites())) == (lastRead() != resultOf(processYaml, 0)))
